@@ -30,6 +30,12 @@ CLAIMED = {
  "C20": dict(engine="engine", design="4 C20", technique="TLA+ spec (AppEngine: pending table + name trie + timers + handlers) model-checked by TLC; traces of the real basic.Engine (dummy timer and real timer under synctest) validated by TLC",
    text="TLC exhausts all interleavings of express/data/nack/clock/attach/detach/interest/reply up to a depth bound on the implementation-shaped trie model with the C20 rules as action properties and ExactlyOnce/AllResolved as invariants; the same rules are then checked on every step of recorded executions of the real engine, the set of callbacks fired by each arriving packet or clock advance being the owned observable.",
    note="Names nested over /a /a/b /a/b/c /d; lifetimes 1..4 ticks of 100 ms; implicit digests over a table of 14 Data wires. " + TB),
+ "C18": dict(engine="dv", design="4 C18", technique="TLA+ spec (DV: SPEC.md update rule, poison reverse, dead-neighbour detection) model-checked by TLC incl. liveness (convergence under fair fetches); N real dv.Routers' advertisements and fixed points validated by TLC",
+   text="TLC checks NoInfAdvert and FixedPointCorrect on every connected graph with N<=3 together with the liveness property Converges under weak fairness, and safety on named 4- and 5-router graphs with a link failure; real routers are driven through fetch/failure/recovery schedules and every advertisement (cost, other cost, chosen next hop) must equal the model's, the router's tie-break must be a minimal-cost pick and a function of the cost row, and at every fair-round quiescence point tables must equal hop distances with a shortest-path next hop, reached within a bounded number of rounds.",
+   note="Advert exchange is synchronous through the real TLV codec; SVS transport and timers of the daemon's main loop are not exercised. " + TB),
+ "C19": dict(engine="dv", design="4 C19", technique="TLA+ spec (DV: installer Desired/Replay + replicated prefix log with snapshots) model-checked by TLC; real routers' register/unregister streams and reconstructed prefix sets validated by TLC",
+   text="TLC checks that the prefix log design replicates (LogReplicates, CaughtUpEqual, SnapshotSound) for all op/learn/fetch interleavings with a scaled snapshot threshold, and that fibUpdate reaches Desired; on real routers the emitted command stream is replayed into a route map that must equal the from-scratch Desired(r) after every table change, and after every sync the peer must have caught up with exactly the publisher's announced set (incl. first fetch by snapshot and 130-operation bursts).",
+   note="The harness relays the peer's real fetch Interests to the publisher's real handler; publisher restarts are not modelled. " + TB),
 }
 NOT_YET = "check not yet built in this commit (work in progress; see DESIGN.md section 4)"
 NA = {}
